@@ -99,6 +99,7 @@ func commandRunner(command string, params string, unitdir string) error {
 	if err != nil {
 		MainInstance.nc.GetLogger().Error("Error updating status file %s: %s", statusFilename, err)
 	}
+	verifPoint("runner.init", unitdir)
 	var cmd *exec.Cmd
 	if params == "" {
 		cmd = exec.Command(command)
@@ -151,10 +152,12 @@ func commandRunner(command string, params string, unitdir string) error {
 	}
 	cmd.Stdout = stdout
 	cmd.Stderr = stdout
+	verifPoint("runner.before_cmd_start", unitdir)
 	err = cmd.Start()
 	if err != nil {
 		return err
 	}
+	verifPoint("runner.cmd_started", unitdir)
 	doneChan := make(chan bool, 1)
 	go cmdWaiter(cmd, doneChan)
 	writeStatusFailures := 0
@@ -164,13 +167,16 @@ loop:
 		case <-doneChan:
 			break loop
 		case <-termChan:
+			verifPoint("runner.term_received", unitdir)
 			termThenKill(cmd, doneChan)
+			verifPoint("runner.term_killed", unitdir)
 			err = status.UpdateBasicStatus(statusFilename, WorkStateFailed, "Killed", stdoutSize(unitdir))
 			if err != nil {
 				MainInstance.nc.GetLogger().Error("Error updating status file %s: %s", statusFilename, err)
 			}
 			os.Exit(-1)
 		case <-time.After(250 * time.Millisecond):
+			verifPoint("runner.tick", unitdir)
 			err = status.UpdateBasicStatus(statusFilename, WorkStateRunning, fmt.Sprintf("Running: PID %d", cmd.Process.Pid), stdoutSize(unitdir))
 			if err != nil {
 				MainInstance.nc.GetLogger().Error("Error updating status file %s: %s", statusFilename, err)
@@ -192,6 +198,7 @@ loop:
 
 		return err
 	}
+	verifPoint("runner.before_final", unitdir)
 	if cmd.ProcessState.Success() {
 		err = status.UpdateBasicStatus(statusFilename, WorkStateSucceeded, cmd.ProcessState.String(), stdoutSize(unitdir))
 		if err != nil {
@@ -203,6 +210,7 @@ loop:
 			MainInstance.nc.GetLogger().Error("Error updating status file %s: %s", statusFilename, err)
 		}
 	}
+	verifPoint("runner.after_final", unitdir)
 	os.Exit(cmd.ProcessState.ExitCode())
 
 	return nil
@@ -266,12 +274,14 @@ func (cw *commandUnit) runCommand(cmd *exec.Cmd) error {
 
 		return err
 	}
+	verifPoint("daemon.runner_started", "")
 	cw.UpdateFullStatus(func(status *StatusFileData) {
 		if status.ExtraData == nil {
 			status.ExtraData = &CommandExtraData{}
 		}
 		status.ExtraData.(*CommandExtraData).Pid = cmd.Process.Pid
 	})
+	verifPoint("daemon.pid_saved", "")
 	doneChan := make(chan bool)
 	go func() {
 		<-doneChan
@@ -321,6 +331,7 @@ func (cw *commandUnit) Restart() error {
 		// Job already complete - no need to restart monitoring
 		return nil
 	}
+	verifPoint("restart.incomplete", "")
 	if state == WorkStatePending {
 		// Job never started - mark it failed
 		cw.UpdateBasicStatus(WorkStateFailed, "Pending at restart", stdoutSize(cw.UnitDir()))
@@ -352,7 +363,9 @@ func (cw *commandUnit) Cancel() error {
 		return err
 	}
 
+	verifPoint("cancel.signalled", "")
 	proc.Wait()
+	verifPoint("cancel.before_write", "")
 
 	cw.UpdateBasicStatus(WorkStateCanceled, "Canceled", -1)
 
